@@ -7,9 +7,13 @@
 #include <chibi/eval.h>
 
 int main (int argc, char **argv) {
-  sexp ctx, res; int i; char buf[256];
+  sexp ctx, res; int i, first = 1, lim = 0; char buf[256];
+  unsigned long hsize = 0, hmax = 0;
   sexp_scheme_init();
-  ctx = sexp_make_eval_context(NULL, NULL, NULL, 0, 0);
+  /* "H<size>:<max>" as first argument: a context with a heap LIMIT - growing the stack may then fail for lack of memory
+     before the configured stack maximum is reached: the outcome must still be a value or an error object, never a crash */
+  if (argc > 1 && argv[1][0] == 'H') { sscanf(argv[1] + 1, "%lu:%lu", &hsize, &hmax); first = 2; lim = 1; }
+  ctx = sexp_make_eval_context(NULL, NULL, NULL, hsize, hmax);
   sexp_load_standard_env(ctx, NULL, SEXP_SEVEN);
   sexp_load_standard_ports(ctx, NULL, stdin, stdout, stderr, 1);
   sexp_eval_string(ctx, "(define (deep n) (if (= n 0) 0 (+ 1 (deep (- n 1)))))", -1, NULL);
@@ -18,7 +22,7 @@ int main (int argc, char **argv) {
   sexp_eval_string(ctx, "(define (deep4 n . r) (if (= n 0) (length r) (+ 1 (apply deep4 (- n 1) r))))", -1, NULL);
   sexp_eval_string(ctx, "(define (f5 . xs) (length xs))", -1, NULL);
   sexp_eval_string(ctx, "(define (deep5 n l) (if (= n 0) (apply f5 l) (+ 1 (deep5 (- n 1) l))))", -1, NULL);
-  for (i = 1; i < argc; i++) {
+  for (i = first; i < argc; i++) {
     long d = atol(argv[i]); int which = d < 0; long depth = which ? -d : d;
     /* depths 3000000+k: recursion of depth k through apply; 4000000+k: through apply with a 100-element rest list */
     long wide = 0;   /* 5000000+k: a call spreading a k-thousand element list (apply) under 50 frames */
@@ -36,8 +40,8 @@ int main (int argc, char **argv) {
     if (isval && sexp_fixnump(res)) valok = (which == 1) ? (sexp_unbox_fixnum(res) == 1) : (sexp_unbox_fixnum(res) == depth);
     probe = sexp_eval_string(ctx, "(let loop ((i 0) (a '())) (if (< i 100) (loop (+ i 1) (cons i a)) (apply + a)))", -1, NULL);
     probeok = sexp_fixnump(probe) && sexp_unbox_fixnum(probe) == 4950;
-    printf("{\"e\":\"Deep\",\"d\":%ld,\"unit\":%ld,\"fn\":%d,\"outcome\":\"%s\",\"valok\":%d,\"probe\":%d,\"len\":%ld,\"w\":%ld}\n",
-           depth / unit, unit, which, isval ? "value" : "error", valok, probeok, (long)sexp_stack_length(sexp_context_stack(ctx)), wide / 1000);
+    printf("{\"e\":\"Deep\",\"d\":%ld,\"unit\":%ld,\"fn\":%d,\"outcome\":\"%s\",\"valok\":%d,\"probe\":%d,\"len\":%ld,\"w\":%ld,\"lim\":%d}\n",
+           depth / unit, unit, which, isval ? "value" : "error", valok, probeok, (long)sexp_stack_length(sexp_context_stack(ctx)), wide / 1000, lim);
     fflush(stdout);
   }
   sexp_destroy_context(ctx);
